@@ -352,7 +352,7 @@ func schemaGossipVrx(thorough bool) *schema {
 }
 
 // schemaPeerVertex: what a peer returns from GetVertex / streams in LoadDag.
-func schemaPeerVertex(thorough, allowNil bool) *schema {
+func schemaPeerVertex(thorough, allowNil, trxBlock bool) *schema {
 	var fs []fld
 	parent := ""
 	if allowNil {
@@ -363,6 +363,9 @@ func schemaPeerVertex(thorough, allowNil bool) *schema {
 	fs = append(fs, vf...)
 	s := &schema{fields: fs}
 	s.blocks = vertexBlocks(vf, "Vertex.", thorough)
+	if !trxBlock {
+		s.blocks = append(s.blocks[:1], s.blocks[2:]...) // without red3(Vertex.Transaction.*)
+	}
 	return s.init()
 }
 
